@@ -35,6 +35,7 @@ from typing import Any
 
 from happysimulator.core.entity import Entity
 from happysimulator.core.event import Event
+from happysimulator.core.sim_future import SimFuture
 
 logger = logging.getLogger(__name__)
 
@@ -207,9 +208,13 @@ class RWLock(Entity):
         enqueue_time = self._clock.now.nanoseconds if self._clock else 0
 
         acquired = [False]
+        # Park on a future instead of polling with zero-delay yields, so the
+        # clock can advance to the instant the wake-up happens.
+        wake_signal = SimFuture()
 
         def on_wake():
             acquired[0] = True
+            wake_signal.resolve(None)
 
         waiter = _Waiter(
             waiter_type=_WaiterType.READER,
@@ -219,7 +224,7 @@ class RWLock(Entity):
         self._waiters.append(waiter)
 
         while not acquired[0]:
-            yield 0.0
+            yield wake_signal
 
         self._read_acquisitions += 1
 
@@ -244,9 +249,13 @@ class RWLock(Entity):
         enqueue_time = self._clock.now.nanoseconds if self._clock else 0
 
         acquired = [False]
+        # Park on a future instead of polling with zero-delay yields, so the
+        # clock can advance to the instant the wake-up happens.
+        wake_signal = SimFuture()
 
         def on_wake():
             acquired[0] = True
+            wake_signal.resolve(None)
 
         waiter = _Waiter(
             waiter_type=_WaiterType.WRITER,
@@ -256,7 +265,7 @@ class RWLock(Entity):
         self._waiters.append(waiter)
 
         while not acquired[0]:
-            yield 0.0
+            yield wake_signal
 
         self._write_acquisitions += 1
 
